@@ -43,8 +43,11 @@ for _cls in CLASSES:
         D = A - B
         h.eq('sub0', D.data[0], a - c)
         h.eq('sub1', D.data[1], b - d)
-        h.raises('unequal lengths +', lambda: A + cls(c), ValueError)
-        h.raises('unequal lengths -', lambda: cls(c) - A, ValueError)
+        # every unequal-length combination, both operand orders, both operators (2 vs 1, 1 vs 2, 3 vs 2)
+        C3 = cls(a); C3.append(cls(b)); C3.append(cls(c))
+        for nm, f in (('2 + 1', lambda: A + cls(c)), ('1 + 2', lambda: cls(c) + A), ('2 - 1', lambda: A - cls(c)),
+                      ('1 - 2', lambda: cls(c) - A), ('3 + 2', lambda: C3 + A), ('2 - 3', lambda: A - C3), ('3 - 2', lambda: C3 - A)):
+            h.raises(f'unequal lengths {nm}', f, ValueError)
     claim(f'arith-multi:{_cls.__name__}')(_arith2)
 
     for _other in CLASSES:
